@@ -299,9 +299,20 @@ impl Evaluator {
             }
             // Copy the remainding polys of the array with larger count into encrypted1
             if ciphertext1_size < ciphertext2_size {
-                ciphertext1.polys_mut(ciphertext1_size, ciphertext2_size).copy_from_slice(
-                    ciphertext2.polys(ciphertext1_size, ciphertext2_size)
-                );
+                if !is_subtract {
+                    ciphertext1.polys_mut(ciphertext1_size, ciphertext2_size).copy_from_slice(
+                        ciphertext2.polys(ciphertext1_size, ciphertext2_size)
+                    );
+                } else {
+                    // 0 - c2[i] for the components only the subtrahend has
+                    polymod::negate_ps(
+                        ciphertext2.polys(ciphertext1_size, ciphertext2_size),
+                        ciphertext2_size - ciphertext1_size,
+                        coeff_count,
+                        coeff_modulus,
+                        ciphertext1.polys_mut(ciphertext1_size, ciphertext2_size)
+                    );
+                }
             }
         }
     }
